@@ -2,7 +2,8 @@
   C16 — transforms are pure functional updates.  `Transform.focused` (the model of Go's
   `traversal.FocusedTransform`) against a reference update `updateAt` defined by recursion on the
   path: replace / remove the entry, keep all other entries in order.  Property theorems only; helper
-  lemmas are in `Lemmas/Transform.lean`.
+  lemmas are in `Lemmas/Transform.lean` and (expanded graph, any number of links: B6, B7 below)
+  `Lemmas/TransformExpand.lean`.
 
   Vocabulary (all in `Lemmas/Transform.lean`):
     * `getPlain root path = some target` — the target exists and no link is crossed to reach it
@@ -17,6 +18,7 @@
 -/
 import IpldModel.Model.Transform
 import IpldModel.Lemmas.Transform
+import IpldModel.Lemmas.TransformExpand
 namespace Ipld.Props.C16
 open Ipld Ipld.Sel Ipld.Walk Ipld.Transform
 
@@ -344,5 +346,398 @@ example :
       [([0x02], .map (.cons kB (.int 2) .nil))]) := by rfl
 
 end examples
+
+/-! ## B6 — across a link, at the level of the expanded graph
+
+  `expandFuel store F d` resolves every link of `d` through `store`, down to depth `F` (a link costs one
+  unit, like a map or a list).  All statements hold for *every* `F` that reaches the link on the path
+  (`pre.length < F`), so in particular for the full expansion; no acyclicity of the store is needed.
+  Helper lemmas are in `Lemmas/TransformExpand.lean`.
+
+  Vocabulary:
+    * `linkOccurs c d` — the link `c` occurs in `d` (syntactically, nothing is loaded);
+    * `FreshLink c' b' store root` (decidable) — the new link `c'` either already loads the new block `b'`,
+      or occurs as a link nowhere (neither in `root` nor in a block of `store`).  It is needed: see
+      `fresh_needed_collision` and `fresh_needed_dangling`.  A block referenced twice, on and off the
+      path, is *not* a problem: `shared_block_ok`.
+-/
+
+/-- **expand_focused_one_link (E1, as the codec stores the block).**  Hypotheses of `relink`, `blk0` the
+    functionally updated block, `c' = linkOf (canon blk0)` fresh.  For every fuel reaching the link:
+    (1) the expanded new graph is the expanded old graph with, at `pre` (where the link is), the
+        expansion of the block as stored (`canon blk0`);
+    (2) the expansion of the updated block `blk0` is the functional update of the expanded old block at
+        `rest` by the callback's answer (expanded through the new store with the fuel left at that depth).
+    Nothing is assumed of `canon`: (1) and (2) meet at the block, up to `canon`. -/
+theorem expand_focused_one_link_canon (pre rest : Path) (root blk target blk0 : DM) (c : Bytes) (at_ : Path)
+    (k : Nat) (st : TSt) (F : Nat) :
+    rest ≠ [] → root.NoDup → blk.NoDup → getPlain root pre = some (.link c) → storeGet st.store c = some blk →
+    getPlain blk rest = some target → rest.length < k →
+    updateAt blk rest (fn (at_ ++ pre ++ rest) (some target)) = some blk0 →
+    FreshLink (linkOf (canon blk0)) (canon blk0) st.store root → pre.length < F →
+    ∃ (y : DM) (st' : TSt),
+      focused fn linkOf canon cp (pre.length + (k + 1)) at_ (some root) (pre ++ rest) st = .ok (some y, st') ∧
+      some (expandFuel st'.store F y) =
+        updateAt (expandFuel st.store F root) pre (some (expandFuel st'.store (F - pre.length - 1) (canon blk0))) ∧
+      some (expandFuel st'.store (F - pre.length - 1) blk0) =
+        updateAt (expandFuel st.store (F - pre.length - 1) blk) rest
+          ((fn (at_ ++ pre ++ rest) (some target)).map (expandFuel st'.store (F - pre.length - 1 - rest.length))) := by
+  intro hr hn hb hg hs hg2 hk hb0 hfresh hF
+  obtain ⟨blk0', hb0', hfoc⟩ := relink fn linkOf canon cp pre rest root blk target c at_ k st hr hn hb hg hs hg2 hk
+  rw [hb0] at hb0'; injection hb0' with hb0'; subst hb0'
+  obtain ⟨y, hy⟩ := updateAt_some pre root (.link (linkOf (canon blk0)))
+  refine ⟨y, _, by rw [hfoc, hy], ?_⟩
+  have hcore := expand_relink_core st.store c (linkOf (canon blk0)) pre rest root blk target blk0 (canon blk0) y
+    (fn (at_ ++ pre ++ rest) (some target)) F hn hb hg hs hg2 hb0 hy
+    (fresh_offSubtrees hfresh root (Or.inl rfl) pre) (fresh_offSubtrees hfresh blk (Or.inr ⟨c, hs⟩) rest) hF
+  exact ⟨hcore.1, hcore.2.1⟩
+
+/-- **expand_focused_one_link (E1).**  If moreover the codec writes the block as it is
+    (`canon blk0 = blk0`): expanding the new root through the new store is the functional update of the
+    expanded old graph at the whole path `pre ++ rest`, by the callback's answer (which is itself
+    expanded through the new store with the fuel left at its depth; `none`, a removal, stays `none`). -/
+theorem expand_focused_one_link (pre rest : Path) (root blk target blk0 : DM) (c : Bytes) (at_ : Path)
+    (k : Nat) (st : TSt) (F : Nat) :
+    rest ≠ [] → root.NoDup → blk.NoDup → getPlain root pre = some (.link c) → storeGet st.store c = some blk →
+    getPlain blk rest = some target → rest.length < k →
+    updateAt blk rest (fn (at_ ++ pre ++ rest) (some target)) = some blk0 → canon blk0 = blk0 →
+    FreshLink (linkOf blk0) blk0 st.store root → pre.length < F →
+    ∃ (y : DM) (st' : TSt),
+      focused fn linkOf canon cp (pre.length + (k + 1)) at_ (some root) (pre ++ rest) st = .ok (some y, st') ∧
+      st'.store = (linkOf blk0, blk0) :: st.store ∧
+      some (expandFuel st'.store F y) =
+        updateAt (expandFuel st.store F root) (pre ++ rest)
+          ((fn (at_ ++ pre ++ rest) (some target)).map (expandFuel st'.store (F - pre.length - 1 - rest.length))) := by
+  intro hr hn hb hg hs hg2 hk hb0 hcanon hfresh hF
+  obtain ⟨blk0', hb0', hfoc⟩ := relink fn linkOf canon cp pre rest root blk target c at_ k st hr hn hb hg hs hg2 hk
+  rw [hb0] at hb0'; injection hb0' with hb0'; subst hb0'
+  rw [hcanon] at hfoc
+  obtain ⟨y, hy⟩ := updateAt_some pre root (.link (linkOf blk0))
+  refine ⟨y, _, by rw [hfoc, hy], rfl, ?_⟩
+  exact (expand_relink_core st.store c (linkOf blk0) pre rest root blk target blk0 blk0 y
+    (fn (at_ ++ pre ++ rest) (some target)) F hn hb hg hs hg2 hb0 hy
+    (fresh_offSubtrees hfresh root (Or.inl rfl) pre) (fresh_offSubtrees hfresh blk (Or.inr ⟨c, hs⟩) rest) hF).2.2 rfl
+
+/-- The same when the callback's answer contains no link (or is a removal): the expanded new graph is
+    literally `updateAt (expanded old graph) (pre ++ rest) (answer)`. -/
+theorem expand_focused_one_link_plain (pre rest : Path) (root blk target blk0 : DM) (c : Bytes) (at_ : Path)
+    (k : Nat) (st : TSt) (F : Nat) :
+    rest ≠ [] → root.NoDup → blk.NoDup → getPlain root pre = some (.link c) → storeGet st.store c = some blk →
+    getPlain blk rest = some target → rest.length < k →
+    updateAt blk rest (fn (at_ ++ pre ++ rest) (some target)) = some blk0 → canon blk0 = blk0 →
+    FreshLink (linkOf blk0) blk0 st.store root → pre.length < F →
+    (∀ v, fn (at_ ++ pre ++ rest) (some target) = some v → Spec.hasLink v = false) →
+    ∃ (y : DM) (st' : TSt),
+      focused fn linkOf canon cp (pre.length + (k + 1)) at_ (some root) (pre ++ rest) st = .ok (some y, st') ∧
+      some (expandFuel st'.store F y) =
+        updateAt (expandFuel st.store F root) (pre ++ rest) (fn (at_ ++ pre ++ rest) (some target)) := by
+  intro hr hn hb hg hs hg2 hk hb0 hcanon hfresh hF hv
+  obtain ⟨y, st', h1, _, h3⟩ := expand_focused_one_link fn linkOf canon cp pre rest root blk target blk0 c at_ k st F
+    hr hn hb hg hs hg2 hk hb0 hcanon hfresh hF
+  refine ⟨y, st', h1, ?_⟩
+  rw [h3]
+  cases hfn : fn (at_ ++ pre ++ rest) (some target) with
+  | none => rfl
+  | some v => rw [Option.map_some, expandFuel_linkfree _ _ v (hv v hfn)]
+
+/-- **expand_off_path_unchanged (E2).**  Replacement case (`fn … = some v`), hypotheses of E1.
+    (a) every position of the expanded new graph that is off the path — `OffPath`, taken in the expanded
+        old graph, so positions inside other blocks count — reads as in the expanded old graph;
+    (b) every tree that does not mention the new link expands through the new store as through the
+        old one; in particular
+    (c) every link other than the new one loads and expands as before. -/
+theorem expand_off_path_unchanged (pre rest : Path) (root blk target blk0 v : DM) (c : Bytes) (at_ : Path)
+    (k : Nat) (st : TSt) (F : Nat) :
+    rest ≠ [] → root.NoDup → blk.NoDup → getPlain root pre = some (.link c) → storeGet st.store c = some blk →
+    getPlain blk rest = some target → rest.length < k →
+    fn (at_ ++ pre ++ rest) (some target) = some v →
+    updateAt blk rest (some v) = some blk0 → canon blk0 = blk0 →
+    FreshLink (linkOf blk0) blk0 st.store root → pre.length < F →
+    ∃ (y : DM) (st' : TSt),
+      focused fn linkOf canon cp (pre.length + (k + 1)) at_ (some root) (pre ++ rest) st = .ok (some y, st') ∧
+      (∀ q, OffPath (expandFuel st.store F root) (pre ++ rest) q →
+        getPlain (expandFuel st'.store F y) q = getPlain (expandFuel st.store F root) q) ∧
+      (∀ j d, linkOccurs (linkOf blk0) d = false → expandFuel st'.store j d = expandFuel st.store j d) ∧
+      (∀ j c2, c2 ≠ linkOf blk0 → expandFuel st'.store j (.link c2) = expandFuel st.store j (.link c2)) := by
+  intro hr hn hb hg hs hg2 hk hv hb0 hcanon hfresh hF
+  obtain ⟨y, st', h1, h2, h3⟩ := expand_focused_one_link fn linkOf canon cp pre rest root blk target blk0 c at_ k st F
+    hr hn hb hg hs hg2 hk (by rw [hv]; exact hb0) hcanon hfresh hF
+  have hagree : ∀ j d, linkOccurs (linkOf blk0) d = false → expandFuel st'.store j d = expandFuel st.store j d := by
+    intro j d hd; rw [h2]; exact fresh_agree hfresh d hd j
+  refine ⟨y, st', h1, fun q ho => ?_, hagree, fun j c2 hc2 => hagree j _ ?_⟩
+  · obtain ⟨m, hm⟩ : ∃ m, F - pre.length = m + 1 := ⟨F - pre.length - 1, by omega⟩
+    have hgp : getPlain (expandFuel st.store F root) (pre ++ rest) =
+        some (expandFuel st.store (m - rest.length) target) := by
+      rw [getPlain_append, getPlain_expand st.store pre root (.link c) F hg, hm,
+        expandFuel_link_some st.store m c blk hs, Option.bind_some, getPlain_expand st.store rest blk target m hg2]
+    rw [hv, Option.map_some] at h3
+    exact getPlain_updateAt_off (pre ++ rest) _ _ q _ _ hgp ho h3.symm
+  · simp only [linkOccurs, beq_eq_false_iff_ne]; exact hc2
+
+/-- E2 without any assumption on `canon`: positions off `pre` (the path up to the link) are unchanged in
+    the expanded graph — whatever the codec does to the block, nothing outside it moves. -/
+theorem expand_off_link_unchanged_canon (pre rest : Path) (root blk target blk0 : DM) (c : Bytes) (at_ : Path)
+    (k : Nat) (st : TSt) (F : Nat) :
+    rest ≠ [] → root.NoDup → blk.NoDup → getPlain root pre = some (.link c) → storeGet st.store c = some blk →
+    getPlain blk rest = some target → rest.length < k →
+    updateAt blk rest (fn (at_ ++ pre ++ rest) (some target)) = some blk0 →
+    FreshLink (linkOf (canon blk0)) (canon blk0) st.store root → pre.length < F →
+    ∃ (y : DM) (st' : TSt),
+      focused fn linkOf canon cp (pre.length + (k + 1)) at_ (some root) (pre ++ rest) st = .ok (some y, st') ∧
+      ∀ q, OffPath (expandFuel st.store F root) pre q →
+        getPlain (expandFuel st'.store F y) q = getPlain (expandFuel st.store F root) q := by
+  intro hr hn hb hg hs hg2 hk hb0 hfresh hF
+  obtain ⟨y, st', h1, h2, _⟩ := expand_focused_one_link_canon fn linkOf canon cp pre rest root blk target blk0 c at_ k
+    st F hr hn hb hg hs hg2 hk hb0 hfresh hF
+  exact ⟨y, st', h1, fun q ho => getPlain_updateAt_off pre _ _ q _ _
+    (getPlain_expand st.store pre root (.link c) F hg) ho h2.symm⟩
+
+/-! ## B7 — across any number of links
+
+  `resolve store f root path = some (target, k)`: walking as `focusedTransform` does (a link with more
+  path to go is loaded), the path arrives at `target` having crossed `k` links.  `relink`'s situation
+  is `k = 1` (`one_link_resolves`).
+-/
+
+/-- The hypotheses of `relink` say: the path resolves, crossing one link. -/
+theorem one_link_resolves (s : List (Bytes × DM)) (pre rest : Path) (root blk target : DM) (c : Bytes) (k : Nat) :
+    rest ≠ [] → getPlain root pre = some (.link c) → storeGet s c = some blk →
+    getPlain blk rest = some target → rest.length ≤ k →
+    resolve s (pre.length + (k + 1)) root (pre ++ rest) = some (target, 1) :=
+  resolve_one_link s pre rest root blk target c k
+
+/-- **focused_through_links.**  A path that resolves crossing `k` links, all blocks `NoDup`: the
+    transform succeeds whatever the callback answers; exactly `k` blocks are written, each under
+    `linkOf` of itself, and the store is the old one with these in front (nothing is overwritten or
+    removed); a non-empty path never yields a nil root. -/
+theorem focused_through_links (path : Path) (root target : DM) (k : Nat) (at_ : Path) (f : Nat) (st : TSt) :
+    resolve st.store f root path = some (target, k) → root.NoDup → (∀ e ∈ st.store, e.2.NoDup) →
+    ∃ (Y : Option DM) (W : List (Bytes × DM)),
+      focused fn linkOf canon cp (f + 1) at_ (some root) path st =
+        .ok (Y, { store := W ++ st.store, written := W ++ st.written }) ∧
+      W.length = k ∧ (∀ e ∈ W, e.1 = linkOf e.2) ∧ (path ≠ [] → ∃ y, Y = some y) := by
+  intro hr hn hst
+  obtain ⟨Y, W, h1, h2, h3, h4, _⟩ := focused_through fn linkOf canon cp f path root target k at_ st hr hn hst
+  exact ⟨Y, W, h1, h2, h3, h4⟩
+
+/-- **focused_through_links_reads (E3).**  If moreover the callback answers `some v`, `v` not a link, the
+    codec writes blocks as they are, and `linkOf` is injective (no two different blocks under one link —
+    needed: `injective_needed`), then `st'.written` has grown by the number of links crossed and reading
+    the path back from the new root through the new store gives `v`: with fuel for `k` loads,
+    `followLinks` from `y` (only needed if the root itself is a link) and then `traversal.Get`. -/
+theorem focused_through_links_reads (path : Path) (root target v : DM) (k : Nat) (at_ : Path) (f : Nat) (st : TSt) :
+    resolve st.store f root path = some (target, k) → root.NoDup → (∀ e ∈ st.store, e.2.NoDup) →
+    fn (at_ ++ path) (some target) = some v → (∀ c, v ≠ .link c) →
+    (∀ b, canon b = b) → (∀ a b, linkOf a = linkOf b → a = b) →
+    ∃ (y : DM) (st' : TSt),
+      focused fn linkOf canon cp (f + 1) at_ (some root) path st = .ok (some y, st') ∧
+      st'.written.length = st.written.length + k ∧
+      ∀ F, k < F → ∃ m, followLinks st'.store F y = .ok m ∧ Walk.get st'.store F m path = .ok v := by
+  intro hr hn hst hv hnl hcanon hinj
+  obtain ⟨Y, W, h1, h2, h3, _, _, h6⟩ := focused_through fn linkOf canon cp f path root target k at_ st hr hn hst
+  obtain ⟨y, rfl, hreads⟩ := h6 v hv hnl hcanon
+  refine ⟨y, _, h1, by simp only [List.length_append, h2]; omega, fun F hF => ?_⟩
+  exact reads_get _ (hreads _ (written_loads_back linkOf hinj st.store W h3)) F hF
+
+/-- E3 for a root that is not itself a link and a non-empty path: `traversal.Get` from the new root. -/
+theorem focused_through_links_get (path : Path) (root target v : DM) (k : Nat) (at_ : Path) (f : Nat) (st : TSt) :
+    resolve st.store f root path = some (target, k) → root.NoDup → (∀ e ∈ st.store, e.2.NoDup) →
+    fn (at_ ++ path) (some target) = some v → (∀ c, v ≠ .link c) →
+    (∀ b, canon b = b) → (∀ a b, linkOf a = linkOf b → a = b) →
+    path ≠ [] → (∀ c, root ≠ .link c) →
+    ∃ (y : DM) (st' : TSt),
+      focused fn linkOf canon cp (f + 1) at_ (some root) path st = .ok (some y, st') ∧
+      st'.written.length = st.written.length + k ∧
+      ∀ F, k < F → Walk.get st'.store F y path = .ok v := by
+  intro hr hn hst hv hnl hcanon hinj hp hroot
+  obtain ⟨Y, W, h1, h2, h3, _, h5, h6⟩ := focused_through fn linkOf canon cp f path root target k at_ st hr hn hst
+  obtain ⟨y, rfl, hreads⟩ := h6 v hv hnl hcanon
+  refine ⟨y, _, h1, by simp only [List.length_append, h2]; omega, fun F hF => ?_⟩
+  obtain ⟨m, hm1, hm2⟩ := reads_get _ (hreads _ (written_loads_back linkOf hinj st.store W h3)) F hF
+  obtain ⟨f', rfl⟩ : ∃ f', F = f' + 1 := ⟨F - 1, by omega⟩
+  rw [followLinks_nonlink _ f' y (h5 hp hroot y rfl)] at hm1
+  injection hm1 with hm1; subst hm1
+  exact hm2
+
+/-- **expand_focused_through_links (E1 and E2 for any number of links).**  The path resolves crossing `k`
+    links, all blocks `NoDup`.  The transform succeeds and prepends `k` written blocks `W`.  If the codec
+    writes blocks as they are, the new links (the keys of `W`) are fresh — they occur as links neither
+    in the root nor in a block of the old store — and each loads back the block written under it (no
+    two different written blocks share a link), then for every fuel covering the path
+    (`path.length + k ≤ F`: one unit per segment and per link):
+    * the new root expanded through the new store is the functional update, at `path`, of the old root
+      expanded through the old store (the callback's answer being expanded with the fuel left);
+    * in the replacement case every position off the path reads as in the expanded old graph. -/
+theorem expand_focused_through_links (path : Path) (root target : DM) (k : Nat) (at_ : Path) (f : Nat) (st : TSt) :
+    resolve st.store f root path = some (target, k) → root.NoDup → (∀ e ∈ st.store, e.2.NoDup) → path ≠ [] →
+    ∃ (y : DM) (W : List (Bytes × DM)),
+      focused fn linkOf canon cp (f + 1) at_ (some root) path st =
+        .ok (some y, { store := W ++ st.store, written := W ++ st.written }) ∧
+      W.length = k ∧ (∀ e ∈ W, e.1 = linkOf e.2) ∧
+      ((∀ b, canon b = b) →
+       (∀ e ∈ W, linkOccurs e.1 root = false ∧ StoreFreeOf e.1 st.store) →
+       (∀ e ∈ W, storeGet (W ++ st.store) e.1 = some e.2) →
+       ∀ F, path.length + k ≤ F →
+        some (expandFuel (W ++ st.store) F y) =
+          updateAt (expandFuel st.store F root) path
+            ((fn (at_ ++ path) (some target)).map (expandFuel (W ++ st.store) (F - path.length - k))) ∧
+        ∀ v, fn (at_ ++ path) (some target) = some v →
+          ∀ q, OffPath (expandFuel st.store F root) path q →
+            getPlain (expandFuel (W ++ st.store) F y) q = getPlain (expandFuel st.store F root) q) := by
+  intro hr hn hst hp
+  obtain ⟨Y, W, h1, h2, h3, h4, h5⟩ := focused_through_expand fn linkOf canon cp f path root target k at_ st hr hn hst
+  obtain ⟨y, rfl⟩ := h4 hp
+  refine ⟨y, W, h1, h2, h3, fun hcanon hfresh hback F hF => ?_⟩
+  have hmain := h5 (NoKeyOf W) (W ++ st.store) (hereditary_noKeyOf W)
+    (fun c b hcb e he => (hfresh e he).2 _ (storeGet_mem hcb))
+    (fun d hd j => expandFuel_append_fresh W st.store (fun e he => (hfresh e he).2) j d hd)
+    (fun e he => (hfresh e he).1) hcanon hback F hF
+  rw [Option.map_some] at hmain
+  refine ⟨hmain, fun v hv q ho => ?_⟩
+  rw [hv, Option.map_some] at hmain
+  exact getPlain_updateAt_off path _ _ q _ _ (getPlain_expand_resolve st.store f path root target k F hr hF) ho
+    hmain.symm
+
+/-- The same under hypotheses on `linkOf` alone: injective (no two blocks under one link) and never
+    answering a link that occurs in the root or in a block of the old store. -/
+theorem expand_focused_through_links' (path : Path) (root target : DM) (k : Nat) (at_ : Path) (f : Nat) (st : TSt)
+    (F : Nat) :
+    resolve st.store f root path = some (target, k) → root.NoDup → (∀ e ∈ st.store, e.2.NoDup) → path ≠ [] →
+    (∀ b, canon b = b) → (∀ a b, linkOf a = linkOf b → a = b) →
+    (∀ b, linkOccurs (linkOf b) root = false ∧ StoreFreeOf (linkOf b) st.store) →
+    path.length + k ≤ F →
+    ∃ (y : DM) (st' : TSt),
+      focused fn linkOf canon cp (f + 1) at_ (some root) path st = .ok (some y, st') ∧
+      st'.written.length = st.written.length + k ∧
+      some (expandFuel st'.store F y) =
+        updateAt (expandFuel st.store F root) path
+          ((fn (at_ ++ path) (some target)).map (expandFuel st'.store (F - path.length - k))) ∧
+      ∀ v, fn (at_ ++ path) (some target) = some v →
+        ∀ q, OffPath (expandFuel st.store F root) path q →
+          getPlain (expandFuel st'.store F y) q = getPlain (expandFuel st.store F root) q := by
+  intro hr hn hst hp hcanon hinj hfresh hF
+  obtain ⟨y, W, h1, h2, h3, h4⟩ := expand_focused_through_links fn linkOf canon cp path root target k at_ f st hr hn hst hp
+  obtain ⟨h5, h6⟩ := h4 hcanon (fun e _ => by rw [h3 e ‹_›]; exact hfresh e.2)
+    (written_loads_back linkOf hinj st.store W h3) F hF
+  exact ⟨y, _, h1, by simp only [List.length_append, h2]; omega, h5, h6⟩
+
+/-! ## Examples for B6 / B7 -/
+
+section examples2
+
+def c1 : Bytes := [0x01]
+def c2 : Bytes := [0x02]
+def c3 : Bytes := [0x03]
+def kZ : Bytes := [0x7a]
+
+/-- the block `{"b": i}` -/
+def blkB (i : Int) : DM := .map (.cons kB (.int i) .nil)
+/-- `{"a": Link(c1), "z": Link(c3)}` -/
+def root2 : DM := .map (.cons kA (.link c1) (.cons kZ (.link c3) .nil))
+/-- two blocks: `c1 ↦ {"b": 1}`, `c3 ↦ {"b": 7}` -/
+def store2 : List (Bytes × DM) := [(c1, blkB 1), (c3, blkB 7)]
+/-- replace whatever is there by 2 -/
+def set2 : Fn := fun _ _ => some (.int 2)
+
+/-! The hypotheses of `expand_focused_one_link` are satisfiable: path `a/b` = `pre ++ rest` with
+    `pre = [a]`, `rest = [b]`, new link `c2`. -/
+example : root2.NoDup := by
+  simp [root2, DM.NoDup, DMKVs.NoDupVals, DMKVs.keys, DMKVs.toList, kA, kZ]
+example : (blkB 1).NoDup := by simp [blkB, DM.NoDup, DMKVs.NoDupVals, DMKVs.keys, DMKVs.toList]
+example : getPlain root2 [.str kA] = some (.link c1) := by rfl
+example : storeGet store2 c1 = some (blkB 1) := by rfl
+example : getPlain (blkB 1) [.str kB] = some (.int 1) := by rfl
+example : updateAt (blkB 1) [.str kB] (set2 ([] ++ [.str kA] ++ [.str kB]) (some (.int 1))) = some (blkB 2) := by rfl
+example : FreshLink c2 (blkB 2) store2 root2 := by decide
+
+/-- …and its conclusion on this graph, computed: the expanded new graph is the expanded old graph with
+    `a/b` replaced; `z` still expands to `{"b": 7}`. -/
+example :
+    (match focused set2 (fun _ => c2) id false 4 [] (some root2) [.str kA, .str kB] ⟨store2, []⟩ with
+      | .ok (some y, st') => some (expandFuel st'.store 3 y)
+      | _ => none) = some (.map (.cons kA (blkB 2) (.cons kZ (blkB 7) .nil))) ∧
+    updateAt (expandFuel store2 3 root2) [.str kA, .str kB] (some (.int 2)) =
+      some (.map (.cons kA (blkB 2) (.cons kZ (blkB 7) .nil))) := ⟨by rfl, by rfl⟩
+
+/-- **Freshness is needed (collision).**  If `linkOf` answers a link that already loads a *different*
+    block (`c3 ↦ {"b": 7}`) and that link is used off the path (`z`), the new entry shadows the old one
+    and the off-path position `z` changes in the expanded graph: `{"b": 2}` instead of `{"b": 7}`.
+    (With a real hash this is a hash collision; the model's `linkOf` is arbitrary.) -/
+theorem fresh_needed_collision :
+    ¬ FreshLink c3 (blkB 2) store2 root2 ∧
+    (match focused set2 (fun _ => c3) id false 4 [] (some root2) [.str kA, .str kB] ⟨store2, []⟩ with
+      | .ok (some y, st') => some (expandFuel st'.store 3 y)
+      | _ => none) = some (.map (.cons kA (blkB 2) (.cons kZ (blkB 2) .nil))) ∧
+    updateAt (expandFuel store2 3 root2) [.str kA, .str kB] (some (.int 2)) =
+      some (.map (.cons kA (blkB 2) (.cons kZ (blkB 7) .nil))) := ⟨by decide, by rfl, by rfl⟩
+
+/-- **Freshness is needed (dangling link).**  `z` links to `c3`, which the store does not have; the
+    changed block happens to be stored under `c3`.  After the transform the formerly dangling `z` loads
+    the new block.  (With content addressing this is not a misbehaviour — `c3` always *meant* that
+    block — but the expanded graph, as observed through this store, changes off the path.) -/
+theorem fresh_needed_dangling :
+    ¬ FreshLink c3 (blkB 2) [(c1, blkB 1)] root2 ∧
+    (match focused set2 (fun _ => c3) id false 4 [] (some root2) [.str kA, .str kB] ⟨[(c1, blkB 1)], []⟩ with
+      | .ok (some y, st') => some (expandFuel st'.store 3 y)
+      | _ => none) = some (.map (.cons kA (blkB 2) (.cons kZ (blkB 2) .nil))) ∧
+    updateAt (expandFuel [(c1, blkB 1)] 3 root2) [.str kA, .str kB] (some (.int 2)) =
+      some (.map (.cons kA (blkB 2) (.cons kZ (.link c3) .nil))) := ⟨by decide, by rfl, by rfl⟩
+
+/-- **A block referenced twice, on and off the path, is fine**: `{"a": Link(c1), "z": Link(c1)}`,
+    transform `a/b`.  The new block goes under the new link, only `a` is re-pointed, `z` keeps loading
+    the old block (the store is only ever prepended to). -/
+theorem shared_block_ok :
+    FreshLink c2 (blkB 2) store2 (.map (.cons kA (.link c1) (.cons kZ (.link c1) .nil))) ∧
+    (match focused set2 (fun _ => c2) id false 4 [] (some (.map (.cons kA (.link c1) (.cons kZ (.link c1) .nil))))
+        [.str kA, .str kB] ⟨store2, []⟩ with
+      | .ok (some y, st') => some (y, expandFuel st'.store 3 y)
+      | _ => none) =
+      some (.map (.cons kA (.link c2) (.cons kZ (.link c1) .nil)),
+        .map (.cons kA (blkB 2) (.cons kZ (blkB 1) .nil))) := ⟨by decide, by rfl⟩
+
+/-- The identity transform with a content-addressing `linkOf` (`{"b": 1}` hashes to `c1` again): the first
+    alternative of `FreshLink`. -/
+example : FreshLink c1 (blkB 1) store2 root2 := by decide
+
+/-- Two links on the path: `{"a": Link(c1)}`, `c1 ↦ {"b": Link(c3)}`, `c3 ↦ {"c": 1}`, path `a/b/c`. -/
+def store3 : List (Bytes × DM) := [(c1, .map (.cons kB (.link c3) .nil)), (c3, .map (.cons kC (.int 1) .nil))]
+def root3 : DM := .map (.cons kA (.link c1) .nil)
+/-- a `linkOf` that tells the two written blocks apart (by their first key) -/
+def lk2 : DM → Bytes
+  | .map (.cons k _ _) => 0xff :: k
+  | _ => []
+
+example : resolve store3 5 root3 [.str kA, .str kB, .str kC] = some (.int 1, 2) := by rfl
+
+/-- two blocks written (innermost first, so it is last in the list), and the new value read back -/
+example :
+    (match focused set2 lk2 id false 6 [] (some root3) [.str kA, .str kB, .str kC] ⟨store3, []⟩ with
+      | .ok (some y, st') => some (y, st'.written, Walk.get st'.store 3 y [.str kA, .str kB, .str kC])
+      | _ => none) =
+    some (.map (.cons kA (.link (0xff :: kB)) .nil),
+      [(0xff :: kB, .map (.cons kB (.link (0xff :: kC)) .nil)), (0xff :: kC, .map (.cons kC (.int 2) .nil))],
+      .ok (.int 2)) := by rfl
+
+/-- …and at the level of the expanded graph (`expand_focused_through_links`): the new links are fresh,
+    each loads back its block, and the expanded new graph is the update of the expanded old graph. -/
+example :
+    (match focused set2 lk2 id false 6 [] (some root3) [.str kA, .str kB, .str kC] ⟨store3, []⟩ with
+      | .ok (some y, st') => some (expandFuel st'.store 5 y,
+          decide (∀ e ∈ st'.written, linkOccurs e.1 root3 = false ∧ StoreFreeOf e.1 store3),
+          decide (∀ e ∈ st'.written, storeGet st'.store e.1 = some e.2))
+      | _ => none) =
+      some (.map (.cons kA (.map (.cons kB (.map (.cons kC (.int 2) .nil)) .nil)) .nil), true, true) ∧
+    updateAt (expandFuel store3 5 root3) [.str kA, .str kB, .str kC] (some (.int 2)) =
+      some (.map (.cons kA (.map (.cons kB (.map (.cons kC (.int 2) .nil)) .nil)) .nil)) := ⟨by decide, by rfl⟩
+
+/-- **Injectivity of `linkOf` is needed** once two links are crossed: with a constant `linkOf` the outer
+    block, written last, shadows the inner one under the same key; the new root's `a` then loads
+    `{"b": Link(c2)}` whose `b` loads the same block again, and the new value is not found. -/
+theorem injective_needed :
+    (match focused set2 (fun _ => c2) id false 6 [] (some root3) [.str kA, .str kB, .str kC] ⟨store3, []⟩ with
+      | .ok (some y, st') => some (st'.written.length, Walk.get st'.store 5 y [.str kA, .str kB, .str kC])
+      | _ => none) = some (2, .error .notFound) := by rfl
+
+end examples2
 
 end Ipld.Props.C16
